@@ -6,7 +6,7 @@ from .. import sym
 from ..evalfn import SELF
 from ..source import AnalysisError
 from ..sym import canon
-from .common import ALGOS, BACKTEST, CORE, G, Roles, dominates, fld, guard_subset, has_lit, plain, short
+from .common import over_all_children, ALGOS, BACKTEST, CORE, G, Roles, dominates, fld, guard_subset, has_lit, plain, short
 from .core_rules import bound_args, mentions_field
 
 
@@ -166,7 +166,7 @@ def universe_rules(chk, pid):
         chk.ob("C19.R4", ok, CORE, host, "strategy-child-columns", "one NaN column per sub-strategy is added (filled with the child's index by update)", where=S.fn.where)
         # children are set up with the unfiltered data and the same kwargs
         cs = [e for e in S.calls("setup") if e.recv is not None and e.recv[0] == "elem"]
-        ok = bool(cs) and canon(cs[0].args[0]) == canon(universe) and "**" in (cs[0].kwargs or {}) and cs[0].recv[1][0] == "fld" and cs[0].recv[1][2] == "_childrenv"
+        ok = bool(cs) and canon(cs[0].args[0]) == canon(universe) and "**" in (cs[0].kwargs or {}) and over_all_children(cs[0].recv[1], SELF)
         chk.ob("C19.R4", ok, CORE, host, "children-setup-unfiltered", "children are set up with the unfiltered data and the same settings", where=S.fn.where)
     if pid == "C11":
         # aliases of the caller's data are never written
